@@ -537,27 +537,29 @@ func translate(ctx *context, args []Datum) (retLit Datum) {
 		return NewLiteralDatum(src)
 	}
 
-	var toChar string
-	var alreadyTranslated = make(map[string]bool)
-	for index, fromChar := range from {
-		// Ensure we don't translate twice.
-		if _, present := alreadyTranslated[string(fromChar)]; present {
-			continue
+	// Map each character of 'from' (first occurrence wins) to the character
+	// at the same position in 'to', or to removal if 'to' is shorter, then
+	// translate 'src' character by character in a single pass so that a
+	// replacement is never itself replaced.
+	toChars := []rune(to)
+	replacement := make(map[rune]int)
+	for index, fromChar := range []rune(from) {
+		if _, present := replacement[fromChar]; !present {
+			replacement[fromChar] = index
 		}
-		alreadyTranslated[string(fromChar)] = true
-
-		// Work out required replacement / removal
-		if index < len(to) {
-			toChar = to[index : index+1]
-		} else {
-			toChar = ""
+	}
+	var b strings.Builder
+	for _, c := range src {
+		index, present := replacement[c]
+		switch {
+		case !present:
+			b.WriteRune(c)
+		case index < len(toChars):
+			b.WriteRune(toChars[index])
 		}
-
-		src = strings.Replace(src, string(fromChar), toChar,
-			-1 /* replace all */)
 	}
 
-	return NewLiteralDatum(src)
+	return NewLiteralDatum(b.String())
 }
 
 func xBoolean(ctx *context, args []Datum) Datum {
